@@ -18,20 +18,30 @@
 
 using namespace mfuse;
 
-struct Obj : public AbstractClass {
+struct Obj1 : public AbstractClass {
     int tag;
-    Obj() : tag(0x0B1) {}
-    ~Obj() { tag = 0xDEAD; }
+    Obj1() : tag(0x0B1) {}
+    ~Obj1() { tag = 0xDEAD; }
 };
 
-using Ref = SafePtr<Obj>;
+// second object layout (cases whose id starts with 'L'): AbstractClass is NOT the first base,
+// so the conversion from the object pointer to its AbstractClass part adjusts the address
+struct Tag2 { virtual ~Tag2() {} long id = 0x7A67; };
+struct Obj2 : public Tag2, public AbstractClass {
+    int tag;
+    Obj2() : tag(0x0B2) {}
+    ~Obj2() { tag = 0xDEAD; }
+};
 
+template<typename Obj>
 struct World {
+    using Ref = SafePtr<Obj>;
     std::vector<Obj*> objs;
     std::vector<Ref*> refs;
 };
 
-static Obj* srcPtr(World& w, std::istringstream& is)
+template<typename Obj>
+static Obj* srcPtr(World<Obj>& w, std::istringstream& is)
 {
     std::string k;
     is >> k;
@@ -46,8 +56,10 @@ static Obj* srcPtr(World& w, std::istringstream& is)
     return nullptr;
 }
 
-static void observe(World& w)
+template<typename Obj>
+static void observe(World<Obj>& w)
 {
+    using Ref = SafePtr<Obj>;
     std::string out = "m";
     for (Ref* r : w.refs) {
         if (!r) { out += " d"; continue; }
@@ -63,12 +75,16 @@ static void observe(World& w)
         out += r->IsLastReference() ? ":1" : ":0";
         if (!r->Valid()) out += "!";
     }
+    // an object whose own fields were overwritten by list bookkeeping
+    for (Obj* o : w.objs) if (o && o->tag != 0x0B1 && o->tag != 0x0B2) out += " !objfield";
     std::printf("%s\n", out.c_str());
 }
 
-static void runCase(const std::string& id, size_t no, size_t nr, const std::vector<std::string>& ops)
+template<typename Obj>
+static void runCaseT(const std::string& id, size_t no, size_t nr, const std::vector<std::string>& ops)
 {
-    World w;
+    using Ref = SafePtr<Obj>;
+    World<Obj> w;
     w.objs.assign(no, nullptr);
     w.refs.assign(nr, nullptr);
     std::printf("case %s\n", id.c_str());
@@ -119,6 +135,12 @@ static void runCase(const std::string& id, size_t no, size_t nr, const std::vect
     verif_watchdog_off();
     std::printf("end\n");
     std::fflush(stdout);
+}
+
+static void runCase(const std::string& id, size_t no, size_t nr, const std::vector<std::string>& ops)
+{
+    if (!id.empty() && id[0] == 'L') runCaseT<Obj2>(id, no, nr, ops);
+    else runCaseT<Obj1>(id, no, nr, ops);
 }
 
 int main()
